@@ -124,3 +124,59 @@ Theorem C18_function0_view_independent :
     = Ok (erase_reg_recs (erase_obs_calls cs) (erase_obs_recs cs tr)).
 Proof. exact function0_view_independent. Qed.
 Print Assumptions C18_function0_view_independent.
+
+Theorem C18_run_block_lst :
+  forall orc imm f ctx ie ss i g1 g2,
+    lst_eq g1 g2 -> res_rel_l (run_block orc imm f ctx ie ss i g1) (run_block orc imm f ctx ie ss i g2).
+Proof. exact run_block_lst. Qed.
+Print Assumptions C18_run_block_lst.
+
+Theorem C18_start_list_lst :
+  forall orc imm f ctx l g1 g2,
+    lst_eq g1 g2 -> res_rel_l (start_list orc imm f ctx l g1) (start_list orc imm f ctx l g2).
+Proof. exact start_list_lst. Qed.
+Print Assumptions C18_start_list_lst.
+
+Theorem C18_loop_test_lst :
+  forall orc imm f ctx ie s k g1 g2,
+    lst_eq g1 g2 -> res_rel_l (loop_test orc imm f ctx ie s k g1) (loop_test orc imm f ctx ie s k g2).
+Proof. exact loop_test_lst. Qed.
+Print Assumptions C18_loop_test_lst.
+
+Theorem C18_deliver_lst :
+  forall orc imm f ctx ie s st id g1 g2,
+    lst_eq g1 g2 ->
+    res_rel_l (deliver orc imm f ctx ie s st id g1) (deliver orc imm f ctx ie s st id g2).
+Proof. exact deliver_lst. Qed.
+Print Assumptions C18_deliver_lst.
+
+Theorem C18_deliver_list_lst :
+  forall orc imm f ctx l sts id g1 g2,
+    lst_eq g1 g2 ->
+    res_rel_l (deliver_list orc imm f ctx l sts id g1) (deliver_list orc imm f ctx l sts id g2).
+Proof. exact deliver_list_lst. Qed.
+Print Assumptions C18_deliver_list_lst.
+
+(* ---- all outcomes (success, out of fuel, exception, unsupported) ---- *)
+Theorem C18_observers_do_not_influence_total :
+  forall orc imm body fuel cs,
+    detach_ok [] cs ->
+    run_script orc imm fuel body sched0 (erase_obs_calls cs)
+    = res_map (erase_obs_recs cs) (run_script orc imm fuel body sched0 cs).
+Proof. exact observers_do_not_influence_total. Qed.
+Print Assumptions C18_observers_do_not_influence_total.
+
+Theorem C18_observers_cannot_break :
+  forall orc imm body fuel cs tr',
+    detach_ok [] cs ->
+    run_script orc imm fuel body sched0 (erase_obs_calls cs) = Ok tr' ->
+    exists tr, run_script orc imm fuel body sched0 cs = Ok tr /\ tr' = erase_obs_recs cs tr.
+Proof. exact observers_cannot_break. Qed.
+Print Assumptions C18_observers_cannot_break.
+
+Theorem C18_extra_listeners_do_not_influence_total :
+  forall orc imm body fuel cs,
+    run_script orc imm fuel body sched0 (erase_reg_calls cs)
+    = res_map (erase_reg_recs cs) (run_script orc imm fuel body sched0 cs).
+Proof. exact extra_listeners_do_not_influence_total. Qed.
+Print Assumptions C18_extra_listeners_do_not_influence_total.
